@@ -100,7 +100,7 @@ def _norm_post(c):
             ('suffix-kept', n[4] == o[4])]
 
 
-contract(NORM, props=['C07', 'C01', 'C04'], lang_requires=lambda c: [valid_ptr(c.ex, c.args[0], 6)],
+contract(NORM, props=['C07', 'C01', 'C04'], lang_requires=lambda c: [valid_ptr(c.ex, c.args[0], 6)], logic='int',
          requires=_norm_pre, ensures=_norm_post, assigns=lambda c: [(c.args[0], 6)],
          cases=lambda c: [('neg', dt_fields(c.old, c.args[0])[3] < 0), ('day', z3.And(dt_fields(c.old, c.args[0])[3] >= 0, dt_fields(c.old, c.args[0])[3] < 1440)),
                           ('over', dt_fields(c.old, c.args[0])[3] >= 1440)])
